@@ -22,6 +22,7 @@ Assumptions, all explicit in the statements:
 -/
 import Neutrino.Lemmas.Converge
 import Neutrino.Spec.Converge
+import Neutrino.Gen.SyncPeer
 namespace Neutrino.Net
 
 /-- **C04 safety.**  For every world, every acceptance rule that is sound, every
@@ -252,6 +253,70 @@ theorem C04_progress_fair (w : World) (R : AcceptRule w) (evs : List Ev) (s : St
   · exact hc
   · simp only [hc, ↓reduceIte] at h0; omega
 
+/-! ## the sync-peer bookkeeping
+
+The model changes the sync peer in exactly three places: `connect` selects one
+when there is none (`handleNewPeerMsg` → `startSync`), `drop` of the sync peer
+clears it and selects again (`handleDonePeerMsg` → `startSync`), and nothing
+else touches it (the reorg arm of `handleHeadersMsg` hands it to the connected
+sender of the adopted branch, which the model over-approximates by leaving it
+alone).  The source is tied to that by the regenerated table of assignment
+sites: a new function assigning `syncPeer`, or another assignment in one of the
+three, breaks `C04_syncpeer_sites`. -/
+
+/-- **Source facts** (regenerated from blockmanager.go on every run): the
+functions that assign the `syncPeer` field, how often, and how many of the
+assignments are `= nil`; both peer-event handlers run `startSync`. -/
+theorem C04_syncpeer_sites :
+    Neutrino.Gen.SyncPeer.assignSites =
+      [("handleDonePeerMsg", 1, 1), ("handleHeadersMsg", 1, 0), ("startSync", 1, 0)] ∧
+    Neutrino.Gen.SyncPeer.donePeerReselects = true ∧
+    Neutrino.Gen.SyncPeer.newPeerSelects = true := by decide
+
+/-- **The sync peer is always a connected peer or none**, for every event list
+(any interleaving of connects, disconnects, stalls, honest replies, Byzantine
+offers and honest-side growth) from a state satisfying the invariant. -/
+theorem C04_syncPeer_connected (w : World) (R : AcceptRule w) (s : State) (evs : List Ev)
+    (hi : Inv w s) : ∀ q, (run w R s evs).sync = some q → q ∈ (run w R s evs).peers :=
+  (run_inv w R evs s hi).sync_mem
+
+/-- **Selection is never left pending**: in every reachable state, if there is no
+sync peer then no peer is connected - a fortiori no connected peer announcing
+more work is waiting for a `startSync` that nobody will run.  (Each handler
+step that can leave the client without a sync peer - the done event of the sync
+peer - runs the selection itself: `C04_done_reselects`.) -/
+theorem C04_progress_enabled (w : World) (R : AcceptRule w) (s : State) (evs : List Ev)
+    (hi : Inv w s) : (run w R s evs).sync = none → (run w R s evs).peers = [] := by
+  intro hn
+  have h := (run_inv w R evs s hi).sync_some
+  by_cases hp : (run w R s evs).peers = []
+  · exact hp
+  · exact absurd hn (h hp)
+
+/-- the done event of the sync peer selects among the remaining peers in the same step -/
+theorem C04_done_reselects (s : State) (p : Peer) (hs : s.sync = some p) :
+    (drop s p).sync = pickSync (remove p s.peers) := by
+  simp only [drop, hs, ↓reduceIte]
+
+/-- an enabled selection picks a peer whenever one is connected -/
+theorem C04_select_some (ps : List Peer) (h : ps ≠ []) : ∃ q, pickSync ps = some q ∧ q ∈ ps := by
+  cases hq : pickSync ps with
+  | none => exact absurd hq (pickSync_some h)
+  | some q => exact ⟨q, rfl, pickSync_mem hq⟩
+
+/-- The two bookkeeping mistakes the invariant excludes, as mutated handler steps.
+(1) The sync peer is forgotten when it is caught lying; its later done event
+finds "not the sync peer" and does not select: a connected candidate is left
+without a sync peer. -/
+def forgetThenDone (s : State) (p : Peer) : State :=
+  let s1 : State := { s with sync := if s.sync = some p then none else s.sync }   -- forgetSyncPeer
+  { s1 with peers := remove p s1.peers }                                          -- done event: not the sync peer, no startSync
+
+/-- (2) The sender of a headers batch is adopted as sync peer when there is none -
+also after its done event has been handled. -/
+def adoptSender (s : State) (p : Peer) : State :=
+  if s.sync = none then { s with sync := some p } else s
+
 /-! ## the hypotheses are satisfiable, the statements are not vacuous -/
 
 /-- A small world: chains of ids < 100 are valid, work = length. -/
@@ -288,5 +353,16 @@ example : (Neutrino.Converge.Truth.init 10).safeBlockTip (.tip 7 "x") = false :=
 example : (Neutrino.Converge.Truth.init 10).safeBlockTip (.tip 11 "t11") = false := by decide
 example : ((Neutrino.Converge.Truth.init 10).reorg 2 3).safeFilterTip (.tip 11 "fa11") = true := by decide
 example : ((Neutrino.Converge.Truth.init 10).reorg 2 3).honestId = "a11" := by decide
+
+/-- the two mutated handler steps break the invariant on the example state -/
+example : ¬ Inv exWorld (forgetThenDone exState exSilent) := by
+  intro h
+  exact h.sync_some (by decide) (by decide)
+
+example : ¬ Inv exWorld (adoptSender (drop { exState with peers := [exSilent] } exSilent) exSilent) := by
+  intro h
+  have := h.sync_mem exSilent (by decide)
+  revert this
+  decide
 
 end Neutrino.Net
